@@ -503,6 +503,56 @@ Theorem C01_column_stack : forall (C : Type) (c0 : C),
 Proof. intros C c0. split; [apply column_stack_csr_den|apply column_stack_dense_den]. Qed.
 Print Assumptions C01_column_stack.
 
+(* column unstacking: entry (i, j) of the result is entry i + j*rows of the
+   column - whatever memory-order flag the single column carries (a column is
+   the same buffer under both flags, but the kernels branch on the flag); the
+   dense result is always flagged Fortran; bad arguments are refused *)
+Theorem C01_column_unstack_dense : forall (C : Type) (c0 : C) (d out : dense C) rows i j,
+  column_unstack_dense C d rows = Some out ->
+  i < rows -> j < d_nr C d / rows ->
+  d_fortran C out = true /\ d_nr C out = rows /\ d_nc C out = d_nr C d / rows /\
+  den_dense C c0 out i j = den_dense C c0 d (i + j * rows) 0.
+Proof. exact column_unstack_dense_den. Qed.
+Print Assumptions C01_column_unstack_dense.
+
+Theorem C01_column_unstack_dense_guard : forall (C : Type) (d : dense C) rows,
+  (d_nc C d <> 1 \/ rows = 0 \/ d_nr C d mod rows <> 0) ->
+  column_unstack_dense C d rows = None.
+Proof. exact column_unstack_dense_guard. Qed.
+Print Assumptions C01_column_unstack_dense_guard.
+
+Theorem C01_column_unstack_csr : forall (C : Type) (c0 : C) (m out : csr C) rows i j,
+  wf_csr C m -> column_unstack_csr C m rows = Some out ->
+  i < rows -> j < s_nr C m / rows ->
+  den_csr C c0 out i j = den_csr C c0 m (i + j * rows) 0.
+Proof. exact column_unstack_csr_den. Qed.
+Print Assumptions C01_column_unstack_csr.
+
+(* stacking then unstacking a dense matrix of either order gives it back *)
+Theorem C01_column_stack_unstack_dense : forall (C : Type) (c0 : C) (d out : dense C) i j,
+  column_unstack_dense C (column_stack_dense C c0 d) (d_nr C d) = Some out ->
+  i < d_nr C d -> j < d_nc C d ->
+  den_dense C c0 out i j = den_dense C c0 d i j.
+Proof.
+  intros C c0 d out i j H Hi Hj.
+  assert (Hdiv : d_nr C d * d_nc C d / d_nr C d = d_nc C d) by (rewrite Nat.mul_comm; apply Nat.div_mul; lia).
+  destruct (column_unstack_dense_den C c0 _ out (d_nr C d) i j H Hi) as (_ & _ & _ & E).
+  - simpl. rewrite Hdiv. exact Hj.
+  - rewrite E. replace (i + j * d_nr C d) with (j * d_nr C d + i) by lia.
+    apply column_stack_dense_den; assumption.
+Qed.
+Print Assumptions C01_column_stack_unstack_dense.
+
+(* non-vacuity: a 6x1 column flagged C-ordered unstacks to the 2x3 matrix
+   whose column j is entries 2j, 2j+1 - not to its transpose *)
+Example C01_nonvacuous_column_unstack :
+  let col := mkD 6 1 false [(1, 0); (2, 0); (3, 0); (4, 0); (5, 0); (6, 0)]%Z in
+  vO vD (G_column_unstack_dense col 2) =
+    Some (2, 3, true, [(1, 0); (2, 0); (3, 0); (4, 0); (5, 0); (6, 0)]%Z) /\
+  vO (fun o => (G_den_dense o 0 1, G_den_dense o 1 0)) (G_column_unstack_dense col 2) =
+    Some ((3, 0), (2, 0))%Z.
+Proof. vm_compute. split; reflexivity. Qed.
+
 (* non-vacuity: the 3x4 -> 2x6 reshape (wider, not a multiple) of a CSR whose
    middle row is stored in descending column order and straddles the output
    row boundary *)
